@@ -264,8 +264,23 @@ def wfNodeOps : List WfNode → DOps
                    nodeKeyOpt := false }) (wfNodeOps ns)
     | .graph child co => .sub n.key child co (wfNodeOps ns)
 
+/-- the recorded inputs, one group per `WorkflowNode` (`n.addInputs`): the declared nodes in
+    declaration order, then END -/
+def WfDecl.groups (d : WfDecl) : List (List Op) :=
+  d.nodes.map (fun n => n.ins.map (WfIn.op n.key)) ++ [d.endIns.map (WfIn.op END)]
+
+/-- `Workflow.compile` replays the groups in the order it visits `wf.workflowNodes`; inside a
+    group the calls keep their order.  `order` lists group indices. -/
+def WfDecl.inputOpsBy (d : WfDecl) (order : List Nat) : List Op :=
+  order.flatMap (fun i => (d.groups[i]?).getD [])
+
 def WfDecl.inputOps (d : WfDecl) : List Op :=
   d.nodes.flatMap (fun n => n.ins.map (WfIn.op n.key)) ++ d.endIns.map (WfIn.op END)
+
+/-- Source fact `declared`: the nodes are visited in the order they were declared (a slice of
+    keys); `false` = `for _, n := range wf.workflowNodes` over the Go map – any order `adv`. -/
+def replayOrder (declared : Bool) (adv : List Nat) (n : Nat) : List Nat :=
+  if declared then List.range n else adv
 
 def WfDecl.branchOps (d : WfDecl) : List Op :=
   d.branches.map (fun br => .branch br.src br.ty br.ends true)
@@ -285,6 +300,10 @@ def WfDecl.guard (endsChecked : Bool) (d : WfDecl) : Option Outcome :=
 
 def WfDecl.lower (endsChecked : Bool) (d : WfDecl) : Decl :=
   .mk .workflow d.inT d.outT d.stateTy (wfNodeOps d.nodes) d.branchOps d.inputOps (d.guard endsChecked)
+
+/-- the same Workflow when its recorded inputs are replayed group by group in `order` -/
+def WfDecl.lowerBy (endsChecked : Bool) (d : WfDecl) (order : List Nat) : Decl :=
+  .mk .workflow d.inT d.outT d.stateTy (wfNodeOps d.nodes) d.branchOps (d.inputOpsBy order) (d.guard endsChecked)
 
 /-- a plain list of builder calls as a declaration (the Graph API) -/
 def DOps.ofList : List Op → DOps
